@@ -4,6 +4,8 @@ import RV.Drv.Executor
 import RV.Model.ClosedLoop
 import RV.Oracle.ClosedLoop
 import RV.Oracle.ClosedLoopLive
+import RV.Oracle.ClosedLoopTraffic
+import RV.Model.ClosedLoopRb
 namespace RV.Drv.ClosedLoop
 open Lean RV RV.Arith RV.Traffic RV.ClosedLoop RV.Drv.Arith RV.Drv.Traffic
 
@@ -88,10 +90,25 @@ def handle : Handler := fun op inp impl => do
     -- scope of the supersession theorems: the harness says the history so far was legal for the forward theorems; the driver
     -- itself decides whether THIS label is legal (`legalS pre`), the harness carries the verdict forward (`sup` of the next line)
     let supIn := match jopt inp "sup" with | some (.bool b) => b | _ => false
-    let sup := supIn && (match labelOf lab with | some l => RV.Oracle.ClosedLoop.legalS pre l | none => true)
+    let sup := supIn && (match labelOf lab with | some l => RV.Oracle.ClosedLoop.legalS pre l | none => lab != "rollback")
     let implPanic := (jopt impl "panic").isSome
     let holds := if implPanic then [("C09.loop_total", false), ("C06.loop_total", false)] else
-      RV.Oracle.ClosedLoop.stateOracles post fwd del sup ++ RV.Oracle.ClosedLoop.stepOracles pre lab post fwd
+      RV.Oracle.ClosedLoop.stateOracles post fwd del sup ++ RV.Oracle.ClosedLoop.stepOracles pre lab post fwd ++
+      RV.Oracle.ClosedLoopTraffic.stateOraclesT post fwd ++ RV.Oracle.ClosedLoopTraffic.stepOraclesT pre lab post
+    -- history flags of the harness (sticky along the walk): the input regions of open findings
+    let flag (k : String) : Bool := match jopt inp k with | some (.bool b) => b | _ => false
+    let tags := (if flag "lateRelease" then ["guard:releaseWhileFinalising"] else []) ++
+      (if flag "earlyExit" then ["guard:exitBeforeBatchRelease"] else []) ++
+      (if flag "noRevKey" then ["guard:noRevKey"] else []) ++
+      (if flag "staleCursor" then ["guard:abandonedCleanup"] else []) ++
+      (if fwd && !RV.Oracle.ClosedLoopTraffic.trInv post then [s!"trInv-fails:{RV.Oracle.ClosedLoopTraffic.trInvWhy post}"] else []) ++
+      (if RV.Oracle.ClosedLoopTraffic.routeLive post.net then ["net:route-live"] else []) ++
+      (if post.net.stableSel.isSome then ["net:stable-pinned"] else []) ++
+      (if post.net.canarySvc.isSome then ["net:canary-svc"] else []) ++
+      (if RV.Oracle.ClosedLoopTraffic.rbPending pre then ["rb-pending"] else []) ++
+      (if RV.Oracle.ClosedLoopTraffic.rbPending pre && RV.Oracle.ClosedLoopTraffic.routeLive pre.net then ["rb-pending-while-routed"] else []) ++
+      (if RV.Oracle.ClosedLoopTraffic.isTerminal post then ["terminal-judged"] else []) ++
+      (if !post.gone && post.ro.hasTraffic then [if post.ro.disableGen then "cfg:traffic-disableGen" else "cfg:traffic"] else []) ++ tags
     -- known finding supersedeBeforeInit: a release was pushed while the BatchRelease had not recorded its revision (history flag
     -- from the harness) and the rollout has not taken the new revision up yet (state)
     let early := match jopt inp "earlyRelease" with | some (.bool b) => b | _ => false
@@ -100,7 +117,13 @@ def handle : Handler := fun op inp impl => do
     let tags := (if sup && !fwd then ["scope:sup", if RV.Oracle.ClosedLoop.resetInv post then "resetInv:holds" else "resetInv:no"] else []) ++ tags
     let tags := (if fwd then "scope:fwd" else if del then "scope:del" else "scope:any") :: (if del then [if RV.Oracle.ClosedLoop.delInv post then "delInv:holds" else "delInv:fails"] else []) ++ (if RV.Oracle.ClosedLoop.fwdInv post then "fwdInv:holds" else "fwdInv:fails") :: tags
     match labelOf lab with
-    | none => return { model := .null, holds := holds, tags := "uncompared" :: tags }
+    | none =>
+      -- the user event of the extended loop (RV.ClosedLoop.stepX)
+      if lab == "rollback" then
+        match stepX pre .rollback with
+        | some s' => return { model := csToJson s', holds := holds, tags := "label:rollback" :: tags }
+        | none => return { model := .null, holds := holds, tags := "uncompared" :: tags }
+      else return { model := .null, holds := holds, tags := "uncompared" :: tags }
     | some l =>
       match step pre l with
       | none => return { model := mkObj [("panic", strJ "?")], holds := holds, tags := "panic" :: tags }
@@ -155,9 +178,24 @@ def handle : Handler := fun op inp impl => do
       let muOK := !(fair && healthy) || RV.Oracle.ClosedLoop.measureDecreases 5 bounds
       let muBad := if fair && healthy then (match RV.Oracle.ClosedLoop.measureFirstBad 5 bounds 0 with | some (i, m) => [s!"mu-stall-at-round:{i}:mu={m}"] | none => []) else []
       let termOK := !(fair && healthy) || (decide (0 ≤ term) && decide (term ≤ 20 * ((nsteps : Int) + 4)))
+      -- C03: the weight on the gateway is the weight of a step whose pods had been reported ready (ghost recomputed here)
+      let tsteps := steps.map fun (l, s', _) => (l, s')
+      let routeOK := RV.Oracle.ClosedLoopTraffic.traceRouteOK RV.Oracle.ClosedLoopTraffic.TGhost.fresh s0 tsteps
+      let routeBad := match RV.Oracle.ClosedLoopTraffic.traceRouteFirstBad RV.Oracle.ClosedLoopTraffic.TGhost.fresh s0 tsteps 0 with
+        | some (i, t) => [s!"route-bad-at:{i}:seen={t.seen}"]
+        | none => []
+      let routedStates := (rest.filter fun s => RV.Oracle.ClosedLoopTraffic.routeLive s.net).length
+      let kind := match jopt inp "kind" with | some (.str k) => [s!"walk:{k}"] | _ => []
+      let tflag (k : String) : Bool := match jopt inp k with | some (.bool b) => b | _ => false
+      let kind := kind ++ (if tflag "lateRelease" then ["guard:releaseWhileFinalising"] else []) ++
+        (if tflag "earlyExit" then ["guard:exitBeforeBatchRelease"] else []) ++ (if tflag "noRevKey" then ["guard:noRevKey"] else []) ++
+        (if tflag "staleCursor" then ["guard:abandonedCleanup"] else [])
+      let hasTr := (!s0.gone && s0.ro.hasTraffic)
       return { holds := [("C02.loop_gate", ok), ("C06.loop_gate", ok), ("C07.loop_terminates", termOK), ("C06.loop_terminates", termOK),
-                         ("C07.loop_measure_decreases", muOK)],
-               tags := ["trace", s!"trace-len:{(labels.length / 50) * 50}+", if njudged == 0 then "trivial" else "trace-judged"] ++ bad ++ muBad ++
+                         ("C07.loop_measure_decreases", muOK), ("C03.loop_route_after_ready", routeOK)],
+               tags := ["trace", s!"trace-len:{(labels.length / 50) * 50}+", if njudged == 0 then "trivial" else "trace-judged"] ++ bad ++ muBad ++ routeBad ++ kind ++
+                 (if hasTr then [if s0.ro.disableGen then "walk-cfg:traffic-disableGen" else "walk-cfg:traffic"] else ["walk-cfg:no-traffic"]) ++
+                 (if routedStates > 0 then ["walk-routed"] else []) ++
                  (if fair && healthy then [s!"mu-boundaries:{(bounds.length / 10) * 10}+"] else []) ++
                  (if fair && healthy then ["fair-healthy-run", s!"rounds-per-step:{if nsteps == 0 then 0 else term.toNat / nsteps}"] else if fair then ["fair-run-with-events"] else ["random-schedule"]) }
   | _ => .error s!"closedloop: unknown op {op}"
